@@ -17,14 +17,21 @@
 (*   part  partition    (0 none, 1 {"A"})                 (group) mutable  *)
 (* Kind is one of writer, reader, topic, publisher, subscriber,            *)
 (* participant.  One action per public call.                               *)
+(*                                                                         *)
+(* dflt is the default QoS the parent factory holds for the kind           *)
+(* (set_default_datawriter_qos of the publisher, ... , set_default_topic_  *)
+(* qos of the participant): it is what QosKind::Default means in create    *)
+(* and set_qos; a refused set_default_*_qos leaves it unchanged, so it is  *)
+(* always consistent.                                                      *)
 (***************************************************************************)
 EXTENDS Integers, Sequences, FiniteSets, TLC, Json
 
-CONSTANTS Kind, Values, CanBeDisabled, MaxOps
+CONSTANTS Kind, Values, CanBeDisabled, MaxOps,
+          DefaultValues   \* values offered to set_default_*_qos ({}: the factory default is never changed)
 
-VARIABLES ex, en, qos, nOps, lastOp
-vars == <<ex, en, qos, nOps, lastOp>>
-view == <<ex, en, qos, nOps>>
+VARIABLES ex, en, qos, dflt, nOps, lastOp
+vars == <<ex, en, qos, dflt, nOps, lastOp>>
+view == <<ex, en, qos, dflt, nOps>>
 
 Default == [rel |-> IF Kind = "writer" THEN 1 ELSE 0, hist |-> 1, mspi |-> 0, ms |-> 0, dl |-> 0, tbf |-> 0,
             nrep |-> 0, ud |-> 0, pres |-> 0, part |-> 0]
@@ -50,12 +57,13 @@ Announced(q) ==
       [] Kind \in {"publisher", "subscriber"} -> [pres |-> q.pres, part |-> q.part, ud |-> q.ud]
       [] OTHER -> [ud |-> q.ud]
 
-Init == /\ ex = (Kind = "participant") /\ en = (Kind = "participant") /\ qos = Default
+Init == /\ ex = (Kind = "participant") /\ en = (Kind = "participant") /\ qos = Default /\ dflt = Default
         /\ nOps = 0 /\ lastOp = [op |-> "Init"]
 
 Proj == [ex |-> ex, en |-> en,
          qos |-> IF ex THEN qos ELSE [none |-> 0],
          ann |-> IF ex /\ en THEN Announced(qos) ELSE [none |-> 0],
+         dflt |-> dflt,
          aux |-> nOps]
 
 \* operations that leave the entity with user data too large for one discovery parameter (> 65535 octets) carry their own tag
@@ -63,13 +71,30 @@ Op(name, args, res, tag) == [op |-> name, a |-> args, expect |-> [res |-> res], 
 Tick == nOps < MaxOps /\ nOps' = nOps + 1
 
 Create(q, e) ==
-    /\ ~ex /\ Tick
+    /\ ~ex /\ Tick /\ UNCHANGED dflt
     /\ IF Consistent(q)
        THEN ex' = TRUE /\ en' = e /\ qos' = q /\ lastOp' = Op("Create", [q |-> q, en |-> e], "Ok", "create:accepted")
        ELSE UNCHANGED <<ex, en, qos>> /\ lastOp' = Op("Create", [q |-> q, en |-> e], "InconsistentPolicy", "create:inconsistent")
 
+\* create with QosKind::Default: the factory default, which is consistent by construction
+CreateDefault(e) ==
+    /\ ~ex /\ Tick /\ Kind # "participant" /\ UNCHANGED dflt
+    /\ ex' = TRUE /\ en' = e /\ qos' = dflt
+    /\ lastOp' = Op("CreateDefault", [en |-> e], "Ok", IF dflt = Default THEN "create:default" ELSE "create:changed-factory-default")
+
+\* set_default_<kind>_qos of the parent: all-or-nothing like set_qos, there is no immutability (it is not an entity's QoS)
+SetDefault(q) ==
+    /\ Tick /\ Kind # "participant" /\ UNCHANGED <<ex, en, qos>>
+    /\ IF Consistent(q)
+       THEN dflt' = q /\ lastOp' = Op("SetDefault", [q |-> q], "Ok", "setfactorydefault:accepted")
+       ELSE dflt' = dflt /\ lastOp' = Op("SetDefault", [q |-> q], "InconsistentPolicy", "setfactorydefault:inconsistent")
+\* set_default_<kind>_qos(QosKind::Default) goes back to the built-in default
+ResetDefault ==
+    /\ Tick /\ Kind # "participant" /\ UNCHANGED <<ex, en, qos>>
+    /\ dflt' = Default /\ lastOp' = Op("ResetDefault", [x |-> 0], "Ok", "setfactorydefault:reset")
+
 SetQosAs(name, q, args, pre) ==
-    /\ ex /\ Tick /\ UNCHANGED <<ex, en>>
+    /\ ex /\ Tick /\ UNCHANGED <<ex, en, dflt>>
     /\ IF ~Consistent(q) /\ en /\ ImmutableChanged(qos, q)
        THEN qos' = qos /\ lastOp' = Op(name, args, [anyOf |-> {"InconsistentPolicy", "ImmutablePolicy"}], pre \o ":inconsistent-and-immutable")
        ELSE IF ~Consistent(q)
@@ -80,12 +105,12 @@ SetQosAs(name, q, args, pre) ==
                                      IF ~en THEN (IF ImmutableChanged(qos, q) THEN pre \o ":accepted-immutable-before-enable" ELSE pre \o ":accepted-before-enable")
                                      ELSE IF q = qos THEN pre \o ":accepted-same" ELSE pre \o ":accepted-mutable")
 SetQos(q) == SetQosAs("SetQos", q, [q |-> q], "set")
-\* set_qos(QosKind::Default): the default QoS of the kind (the factory defaults are never changed here) under the same rules
-SetQosDefault == SetQosAs("SetQosDefault", Default, [x |-> 0], "setdefault")
+\* set_qos(QosKind::Default): the factory default of the kind under the same rules
+SetQosDefault == SetQosAs("SetQosDefault", dflt, [x |-> 0], "setdefault")
 
 Enable ==
     /\ ex /\ Tick /\ Kind \in CanBeDisabled
-    /\ en' = TRUE /\ UNCHANGED <<ex, qos>>
+    /\ en' = TRUE /\ UNCHANGED <<ex, qos, dflt>>
     /\ lastOp' = Op("Enable", [x |-> 0], "Ok", IF en THEN "enable:again" ELSE "enable")
 
 Emit == PrintT(<<"EDGE", ToJson([s |-> Proj, o |-> lastOp', d |-> Proj'])>>)
@@ -94,11 +119,13 @@ Step ==
     \/ \E q \in Values : SetQos(q)
     \/ SetQosDefault
     \/ Enable
+    \/ \E e \in (IF Kind \in CanBeDisabled THEN BOOLEAN ELSE {TRUE}) : CreateDefault(e)
+    \/ (DefaultValues # {} /\ ((\E q \in DefaultValues : SetDefault(q)) \/ ResetDefault))
 Next == Step /\ Emit
 Spec == Init /\ [][Next]_vars
 
 \* C37 on the model: the QoS an entity holds is always consistent
-AlwaysConsistent == ex => Consistent(qos)
+AlwaysConsistent == (ex => Consistent(qos)) /\ Consistent(dflt)
 \* an enabled entity never changes an immutable policy
 ImmutableKept == [][(ex /\ en /\ ex') => ~ImmutableChanged(qos, qos')]_vars
 =============================================================================
